@@ -27,6 +27,14 @@ class CbError(Exception):
     pass
 
 
+class CbBaseError(KeyboardInterrupt):
+    """an exception from the callback that does not derive from Exception (Ctrl-C, SystemExit …)"""
+
+
+class SpinDetected(BaseException):
+    """raised by the fault proxy when the code retries a failing read() thousands of times"""
+
+
 def build_tree(wd, c):
     """content tree in the damaged state; returns (files, orig contents, top path)"""
     files = [{'path': p, 'size': s} for p, s in zip(c['paths'], c['sizes'])]
@@ -67,6 +75,8 @@ class _FaultyFile:
         fa = self._plan['fail_at']
         if fa is not None and fa <= self._plan['calls'] < fa + self._plan.get('burst', 1):
             self._plan['fired'] += 1
+            if self._plan['fired'] > 4000:
+                raise SpinDetected('read() retried > 4000 times on MemoryError without giving up')
             kind = self._plan.get('kind', 'oserror')
             if kind == 'oserror':
                 raise OSError(errno.EIO, 'injected I/O error')
@@ -110,6 +120,10 @@ def run_case(torf, wd, c):
         # every time_monotonic() call made by the collecting thread is one evaluation of the interval gate
         if shim.cur().name == 'main':
             gate_nows.append(sched.now)
+        elif shim.cur().name == 'reader':
+            # the out-of-memory handler polls the clock in a loop without synchronisation operations:
+            # let time pass a little (1/64 s, exact in binary) on every look
+            sched.now += 0.015625
         return sched.now
 
     G.threading, G.queue, G.time_monotonic = th, qu, clock
@@ -118,6 +132,7 @@ def run_case(torf, wd, c):
         S.open = lambda p, mode='r', *a, **k: _FaultyFile(builtins.open(p, mode, *a, **k), plan)
     calls = []
     cb_exc = CbError('callback says no')
+    cb_base_exc = CbBaseError('callback interrupted')
     cbspec = c.get('cb')
 
     def user_cb(*args):
@@ -136,6 +151,8 @@ def run_case(torf, wd, c):
             return True
         if d == 'raise':
             raise cb_exc
+        if d == 'raise-base':
+            raise cb_base_exc
         return None
 
     res = {}
@@ -173,7 +190,7 @@ def run_case(torf, wd, c):
                       'hq_max': sched.queues[1].maxsize if len(sched.queues) > 1 else None},
     }
     if 'exc' in res:
-        obs['result'] = {'raised': exc_obs(torf, res['exc'], index_of, cb_exc)}
+        obs['result'] = {'raised': exc_obs(torf, res['exc'], index_of, cb_exc, cb_base_exc)}
     elif 'ret' in res:
         obs['result'] = {'returned': res['ret']}
     else:
@@ -181,9 +198,11 @@ def run_case(torf, wd, c):
     return obs
 
 
-def exc_obs(torf, e, index_of, cb_exc=None):
-    if cb_exc is not None and e is cb_exc:
+def exc_obs(torf, e, index_of, cb_exc=None, cb_base_exc=None):
+    if (cb_exc is not None and e is cb_exc) or (cb_base_exc is not None and e is cb_base_exc):
         return {'kind': 'cb'}
+    if isinstance(e, SpinDetected):
+        return {'kind': 'spin', 'msg': str(e)}
     if isinstance(e, torf.VerifyContentError):
         return {'kind': 'content', 'piece': e.piece_index}
     if isinstance(e, torf.ReadError):
